@@ -632,13 +632,13 @@ func genStorageVal(rng *rand.Rand) (v [32]byte) {
 // ---- one StateDB case: monitor (f) ----
 
 type stateCase struct {
-	No    int
-	Flag  bool
+	No   int
+	Flag bool
 	// BareCreate: CreateAccount over an existing account is not followed by
 	// anything (1 history in 8); otherwise SetNonce(addr, 1) follows, as in evm.create.
 	BareCreate bool
-	w     *world
-	trace []string // every step taken, for the witness
+	w          *world
+	trace      []string // every step taken, for the witness
 }
 
 func (c *stateCase) witness(extra map[string]interface{}) map[string]interface{} {
